@@ -73,7 +73,7 @@ def _procedural(rng):
 def _produce(ctx, rng, tmpdir):
     """Returns (mesh, producer name)."""
     import mouette as M
-    k = rng.choice(["raw_surface", "raw_volume", "raw_polyline", "raw_points", "from_arrays", "loader", "procedural", "procedural", "procedural",
+    k = rng.choice(["raw_surface", "raw_volume", "raw_volume", "raw_polyline", "raw_points", "from_arrays", "loader", "procedural", "procedural", "procedural",
                     "subdivision", "boundary", "dual", "spherify", "reorder", "loader_other"])
     if k == "reorder":
         # a mesh produced by renumbering the vertices of another one (the source is dropped)
@@ -102,7 +102,18 @@ def _produce(ctx, rng, tmpdir):
     if k == "raw_surface":
         z = surfaces.make(rng.randrange(2 ** 31), max_size=3)
         return build.surface(z["V"], z["F"], vrows=rng.choice(["list", "tuple", "nprow", "vec"])), k
+    if k == "raw_volume" and rng.random() < 0.35:
+        # hexahedral cells (6 faces, 8 corners per cell: the three corner containers differ), also with face completion switched off
+        Vh, Ch = volumes.hex_block(volumes.random_cubes(rng, rng.randint(2, 4)))
+        if rng.random() < 0.3:
+            with build.config(complete_faces_from_cells=False):
+                return build.volume(Vh, Ch), "raw_hexes:no_face_completion"
+        return build.volume(Vh, Ch, vrows=rng.choice(["list", "nprow"])), "raw_hexes"
     if k == "raw_volume":
+        if rng.random() < 0.2:
+            z = volumes.make(rng.randrange(2 ** 31), max_size=1)
+            with build.config(complete_faces_from_cells=False):
+                return build.volume(z["V"], z["C"]), "raw_volume:no_face_completion"
         z = volumes.make(rng.randrange(2 ** 31), max_size=1)
         return build.volume(z["V"], z["C"], vrows=rng.choice(["list", "tuple", "nprow", "vec"])), k
     if k == "raw_polyline":
